@@ -121,7 +121,8 @@ def observe(prog, files):
     """-> ({unit name: [(path, slot, ent)]}, submodule observations, problems) or ("EXC:<Type>", detail)"""
     with F.Work(files) as w:
         try:
-            p = F.parse_project(w.root, proc_internals=True, display=["public", "private", "protected"])
+            p = F.parse_project(w.root, proc_internals=True, display=["public", "private", "protected"],
+                                extra_mods=dict(G.EXTRA_MODS))
         except Exception as e:  # noqa
             return "EXC:" + type(e).__name__, str(e)[:300]
         problems = []
@@ -175,7 +176,8 @@ def html_check(prog, files):
     with F.Work(files) as w:
         with capture_project(box):
             data, out, err = F.full_run_inprocess(w.root, {"display": ["public", "private", "protected"],
-                                                           "proc_internals": "true"})
+                                                           "proc_internals": "true",
+                                                           "extra_mods": [f"{k}: {v}" for k, v in G.EXTRA_MODS.items()]})
         if err or not box:
             return 0, [], ["full run failed: %s" % err]
         p = box[0]
